@@ -270,7 +270,7 @@ class Run:
             'pending': [getattr(j, 'vf_ev', None) for j in b.task_queue.queue],
             'marker': 'current job' in b.status,
             'worker_state': w.state,
-            'worker_alive': w.thread.is_alive() and w.state != S.FINISHED,
+            'worker_alive': self.sched.alive(self.worker_idx),
             'tasks_done': [getattr(j, 'vf_ev', None) for j in b.tasks_done],
             'hooks_finished': all(t.state == S.FINISHED
                                   for t in self.sched.threads
